@@ -209,3 +209,69 @@ Proof.
   - apply overlap_is_gap_test in E2. destruct E2 as [X Y]. rewrite gap1_sym in X, Y.
     assert (overlapping_bounding_rect a b dist = true) by (apply overlap_is_gap_test; split; assumption). congruence.
 Qed.
+
+(* ---- collections: bounding_domain_x / _y fold the members' boxes into their hull ------------------------------------------- *)
+Definition hstep {G} (lo hi : G -> Q) (mM : Q * Q) (g : G) : Q * Q :=
+  let '(m, M) := mM in ((if Qlt_bool (lo g) m then lo g else m), (if Qlt_bool M (hi g) then hi g else M)).
+
+Lemma hull_fold {G} (lo hi : G -> Q) (l : list G) : forall m M,
+  let r := fold_left (hstep lo hi) l (m, M) in
+  fst r <= m /\ M <= snd r /\ (forall g, In g l -> fst r <= lo g /\ hi g <= snd r) /\
+  (fst r = m \/ exists g, In g l /\ fst r = lo g) /\ (snd r = M \/ exists g, In g l /\ snd r = hi g).
+Proof.
+  induction l as [|x l IH]; intros m M; cbv zeta.
+  - cbn. repeat split; try lra; auto; intros g [].
+  - cbn [fold_left].
+    set (m' := if Qlt_bool (lo x) m then lo x else m). set (M' := if Qlt_bool M (hi x) then hi x else M).
+    assert (HS : hstep lo hi (m, M) x = (m', M')) by reflexivity. rewrite HS. clear HS.
+    assert (Hm : m' <= m /\ m' <= lo x /\ (m' = m \/ m' = lo x)).
+    { unfold m'. destruct (Qlt_bool (lo x) m) eqn:E; [apply Qlt_bool_iff in E| apply Qlt_bool_false_iff in E]; repeat split; try lra; auto. }
+    assert (HM : M <= M' /\ hi x <= M' /\ (M' = M \/ M' = hi x)).
+    { unfold M'. destruct (Qlt_bool M (hi x)) eqn:E; [apply Qlt_bool_iff in E| apply Qlt_bool_false_iff in E]; repeat split; try lra; auto. }
+    destruct Hm as (Hm1 & Hm2 & Hm3). destruct HM as (HM1 & HM2 & HM3).
+    specialize (IH m' M'). cbv zeta in IH. destruct IH as (A & B & C & D & E).
+    set (R := fold_left (hstep lo hi) l (m', M')) in *.
+    split; [lra|]. split; [lra|]. split.
+    + intros g [<-|I]; [split; lra| apply C; exact I].
+    + split.
+      * destruct D as [D|(g & I & D)].
+        -- destruct Hm3 as [H|H]; [left; rewrite D; exact H | right; exists x; split; [left; reflexivity| rewrite D; exact H]].
+        -- right. exists g. split; [right; exact I| exact D].
+      * destruct E as [E|(g & I & E)].
+        -- destruct HM3 as [H|H]; [left; rewrite E; exact H | right; exists x; split; [left; reflexivity| rewrite E; exact H]].
+        -- right. exists g. split; [right; exact I| exact E].
+Qed.
+
+Theorem bounding_domain_x_is_hull g r :
+  let res := bounding_domain_x (g :: r) in
+  (forall h, In h (g :: r) -> fst res <= v2x (Base2DIn2D_min h) /\ v2x (Base2DIn2D_max h) <= snd res) /\
+  (exists h, In h (g :: r) /\ fst res = v2x (Base2DIn2D_min h)) /\ (exists h, In h (g :: r) /\ snd res = v2x (Base2DIn2D_max h)).
+Proof.
+  cbv zeta. unfold bounding_domain_x. cbv zeta. rewrite py_slice_tail. change (py_nth (g :: r) 0 (mkPolygon2 [])) with g.
+  rewrite (fold_left_ext_in _ (hstep (fun h => v2x (Base2DIn2D_min h)) (fun h => v2x (Base2DIn2D_max h)))).
+  2:{ intros [m M] h. unfold hstep. reflexivity. }
+  pose proof (hull_fold (fun h => v2x (Base2DIn2D_min h)) (fun h => v2x (Base2DIn2D_max h)) r
+                        (v2x (Base2DIn2D_min g)) (v2x (Base2DIn2D_max g))) as H. cbv zeta in H.
+  destruct (fold_left _ r _) as [m M] eqn:EF. cbn [fst snd] in *. destruct H as (A & B & C & D & E).
+  split; [|split].
+  - intros h [<-|I]; [split; lra| apply C; exact I].
+  - destruct D as [->|(h & I & ->)]; [exists g; split; [left; reflexivity| reflexivity] | exists h; split; [right; exact I| reflexivity]].
+  - destruct E as [->|(h & I & ->)]; [exists g; split; [left; reflexivity| reflexivity] | exists h; split; [right; exact I| reflexivity]].
+Qed.
+
+Theorem bounding_domain_y_is_hull g r :
+  let res := bounding_domain_y (g :: r) in
+  (forall h, In h (g :: r) -> fst res <= v2y (Base2DIn2D_min h) /\ v2y (Base2DIn2D_max h) <= snd res) /\
+  (exists h, In h (g :: r) /\ fst res = v2y (Base2DIn2D_min h)) /\ (exists h, In h (g :: r) /\ snd res = v2y (Base2DIn2D_max h)).
+Proof.
+  cbv zeta. unfold bounding_domain_y. cbv zeta. rewrite py_slice_tail. change (py_nth (g :: r) 0 (mkPolygon2 [])) with g.
+  rewrite (fold_left_ext_in _ (hstep (fun h => v2y (Base2DIn2D_min h)) (fun h => v2y (Base2DIn2D_max h)))).
+  2:{ intros [m M] h. unfold hstep. reflexivity. }
+  pose proof (hull_fold (fun h => v2y (Base2DIn2D_min h)) (fun h => v2y (Base2DIn2D_max h)) r
+                        (v2y (Base2DIn2D_min g)) (v2y (Base2DIn2D_max g))) as H. cbv zeta in H.
+  destruct (fold_left _ r _) as [m M] eqn:EF. cbn [fst snd] in *. destruct H as (A & B & C & D & E).
+  split; [|split].
+  - intros h [<-|I]; [split; lra| apply C; exact I].
+  - destruct D as [->|(h & I & ->)]; [exists g; split; [left; reflexivity| reflexivity] | exists h; split; [right; exact I| reflexivity]].
+  - destruct E as [->|(h & I & ->)]; [exists g; split; [left; reflexivity| reflexivity] | exists h; split; [right; exact I| reflexivity]].
+Qed.
